@@ -253,7 +253,7 @@ def _counts(rep, ctx, flows, cg):
         prep = genbb.prepare(D, {'i2bbs': r['i2bbs'], 'chnuclide': r['name'], 'istart': 1})
         g = prep['gc']
         unknown = sorted({x.stmt[1] for x in g.nodes if x.kind == 'call' and x.stmt[1] not in summ
-                          and not x.stmt[1].startswith('event::') and x.stmt[1] != 'shift'})
+                          and not x.stmt[1].startswith('event::') and not x.stmt[1].startswith('particle::') and x.stmt[1] != 'shift'})
         if unknown:
             raise AnalysisBroken('no particle-count summary for %s (called for %s)' % (unknown, r['name']))
 
@@ -370,6 +370,21 @@ def _labels(rep, ctx):
         prep = genbb.prepare(D, {'i2bbs': i2, 'chnuclide': nm, 'istart': 1})
         g = prep['gc']
         shifts = [n for n in g.nodes if n.kind == 'call' and n.stmt[1] == 'shift']
+        # conversely: every chained daughter (a scheme called with creation time 0 after another scheme) is followed by the block shift
+        schemes = [n for n in g.nodes if n.kind == 'call' and len(n.stmt[2]) == 2 and n.stmt[2][0] == ('num', Fraction(0)) and
+                   n.stmt[1] not in ('shift',) and not n.stmt[1].startswith(('event::', 'particle::'))]
+        dom_ = g.dominators()
+        for d in schemes:
+            if not any(o is not d and o.id in dom_.get(d.id, ()) for o in schemes):
+                continue            # the parent: its own decay time is the time base
+            nxt = [g.nodes[i] for i in d.succ]
+            while len(nxt) == 1 and nxt[0].kind == 'branch' and nxt[0].succ[0] == nxt[0].succ[1]:
+                nxt = [g.nodes[nxt[0].succ[0]]]
+            okd = len(nxt) == 1 and nxt[0].kind == 'call' and nxt[0].stmt[1] == 'shift' and nxt[0].stmt[2][0] == d.stmt[2][1]
+            if not okd:
+                rep.add('TIMES.chain', '%s:%s:unshifted' % (nm, d.stmt[1]), where(fn, d.line), '%s: the particles of daughter %s (generated at time 0) are '
+                        'shifted as a block by the decay time it returned' % (nm, d.stmt[1]), False,
+                        'the call is followed by `%s`' % (ir.fmt_stmt(nxt[0].stmt)[:80] if nxt and nxt[0].stmt else 'nothing'))
         for s in shifts:
             preds = g.preds()
             p1 = [g.nodes[i] for i in preds[s.id]]
